@@ -41,7 +41,7 @@ pub trait SocketFactory: Send + Sync {
 
 thread_local! {
     static SOCKET_FACTORY: RefCell<Option<Arc<dyn SocketFactory>>> = const { RefCell::new(None) };
-    static TAP: RefCell<Option<Arc<dyn Fn(TapEvent) + Send + Sync>>> = const { RefCell::new(None) };
+    static TAP: RefCell<Option<Arc<dyn Fn(usize, TapEvent) + Send + Sync>>> = const { RefCell::new(None) };
     static JITTER: RefCell<Option<Duration>> = const { RefCell::new(None) };
 }
 
@@ -152,20 +152,21 @@ pub enum TapEvent {
     Event(PeerEvent),
 }
 
-/// Install (or clear) a tap for the current thread.
-pub fn set_tap(tap: Option<Arc<dyn Fn(TapEvent) + Send + Sync>>) {
+/// Install (or clear) a tap for the current thread. The first argument identifies the registry
+/// instance (stable for its lifetime).
+pub fn set_tap(tap: Option<Arc<dyn Fn(usize, TapEvent) + Send + Sync>>) {
     TAP.with(|t| *t.borrow_mut() = tap);
 }
 
-pub(crate) fn tap(event: impl FnOnce() -> TapEvent) {
+pub(crate) fn tap(registry: usize, event: impl FnOnce() -> TapEvent) {
     let tap = TAP.with(|t| t.borrow().clone());
     if let Some(tap) = tap {
-        tap(event());
+        tap(registry, event());
     }
 }
 
-pub(crate) fn tap_add(own: &PeerId, connection: &Connection) {
-    tap(|| TapEvent::AddCall {
+pub(crate) fn tap_add(registry: usize, own: &PeerId, connection: &Connection) {
+    tap(registry, || TapEvent::AddCall {
         own: *own,
         peer: connection.peer_id(),
         origin: connection.origin(),
